@@ -67,4 +67,13 @@ PROPS = {
         "assumptions": ["numeric text = decimal floating-point literals; the special spellings ParseFloat also accepts (inf, infinity, nan, hex floats, digit-separating underscores) are outside the generator's alphabet and the model",
                         "map values are compared key-sorted (reflect.DeepEqual is order-insensitive on maps)"],
     },
+    "C01": {
+        "trusted_base": [
+            "modelled, not verified: engine/core/compile.go (typing switch, Validate), every Process of engine/core/processors.go for the documented steps as list functions, gdbi/traveler.go (AddCurrent/AddMark), jsonpath (simple paths, fields on top-level keys, render), pipes.go Convert; goroutines/channels are abstracted to lists (their order/multiplicity behaviour is C13/C07)",
+            "the graph of the model is the abstract graph; that kvgraph's reads denote it is C03_observe",
+            "in/out from an edge ignore the label list (as the code does); the documentation does not say otherwise",
+        ],
+        "assumptions": ["fields()/unwind() are exercised on top-level property names only (nested include/exclude paths of jsonpath are not modelled)",
+                        "programs whose window/distinct step is followed by anything but count are compared by size only (their rows depend on scan order)"],
+    },
 }
